@@ -202,27 +202,27 @@ theorem transposeSem_norm (ish : List Int) (axes : Option (List Int)) :
 theorem sumSem_norm (ish axes : List Int) : (sumSem ish (normAxes axes ish.length) : Sem α) = sumSem ish axes := by
   simp only [sumSem, normAxes_idem]
 
-/-- **The entry model of fifteen classes is the translation of their `_apply`.**  For Identity, Reshape,
+/-- **The entry model of seventeen classes is the translation of their `_apply`.**  For Identity, Reshape,
     Transpose, Resize, Flip, Circshift, Downsample, Upsample, Sum, Slice, Embed, ArrayToBlocks, BlocksToArray,
-    Interpolate, Gridding: what the
+    Interpolate, Gridding, MatMul, RightMatMul (operand order, `conj(mat).swapaxes(-1,-2)` under `adjoint`): what the
     leaf denotes in the model (`leafSem0`, the object of every C01 / C02 / C04 theorem) is the primitive the
     generated table `applyGen` reads off the class's `_apply` body — same numpy / util / block / interp
     function, same attributes in the same argument positions — applied to an array of shape `self.ishape`.
     (The semantics of the primitives themselves stay the model's numpy contracts, tied by the correspondence.) -/
-theorem leafSem0_eq_prim (l : Leaf α) (ish : List Int) (p : Prim) (h1 : ishOf l = some ish)
-    (h2 : Gen.LinopAdjoint.applyGen l = some p) : leafSem0 star ofRat l = primSem ofRat ish p := by
+theorem leafSem0_eq_prim (l : Leaf α) (ish : List Int) (p : Prim α) (h1 : ishOf l = some ish)
+    (h2 : Gen.LinopAdjoint.applyGen l = some p) : leafSem0 star ofRat l = primSem star ofRat ish p := by
   cases l <;> simp only [ishOf, Gen.LinopAdjoint.applyGen, Option.some.injEq, reduceCtorEq] at h1 h2 <;>
     (try subst h1) <;> subst h2 <;>
     first
       | rfl
       | simp only [leafSem0, primSem, transposeSem_norm, sumSem_norm]
 
-/-- the table covers every exactly-representable class except Tile, Multiply, MatMul, RightMatMul (their
-    `_apply` is not a single call on `input`) -/
+/-- the table covers every exactly-representable class except Tile and Multiply (reshape + tile with derived
+    attributes; scalar / array branches) -/
 theorem applyGen_covers (l : Leaf α) :
     (Gen.LinopAdjoint.applyGen l).isSome =
       (match l with
-       | .tile .. => false | .multiply .. => false | .matmul .. => false | .rmatmul .. => false | .ext .. => false
+       | .tile .. => false | .multiply .. => false | .ext .. => false
        | _ => true) := by
   cases l <;> rfl
 
